@@ -20,7 +20,7 @@ ASSUMPTIONS = ['the legacy-SED downgrade (tag 18 -> tag 9 rewrite) is outside th
                'cryptography/OpenSSL block ciphers, RSA, ECDH']
 MIN_COUNTERS = {'quick': {'attempts': 20000, 'bitflip_attempts': 12000, 'truncation_attempts': 1500, 'splice_attempts': 100, 'wrong_secret_attempts': 60, 'rejected': 15000},
                 'thorough': {'attempts': 150000}}
-BUDGET = {'quick': (240, 800), 'thorough': (1800, 3600)}
+BUDGET = {'quick': (600, 1500), 'thorough': (1800, 3600)}
 TECHNIQUE = 'runtime monitoring: exhaustive data-fault injection on ciphertexts (bit flips, truncations, splices, block and packet edits, wrong secrets) with a deterministic outcome oracle'
 
 BASES = [('pgpy', 'cv25519_0'), ('pgpy', 'rsa1024_1'), ('pgpy', 'ecdh_p256_0'), ('ref', 'cv25519_0'), ('ref', 'pass'), ('ref', 'rsa1024_1'), ('ref', 'ecdh_k256_0'),
